@@ -41,12 +41,13 @@ RULE = (
     'components: one generated object per case out of {Parameters (<=6, finite/infinite bounds, fix), RandomVariables '
     '(C11 layout generator), Statements (C10 programs with 0-3 compartment ODE; C05 direct systems and builder '
     'histories wrapped in assignments), DataInfo (<=6 columns over all types / scales / units / categories forms / '
-    'datatypes / descriptors), ExecutionSteps (<=3 estimation / simulation steps over all fields incl. tool options, '
+    'datatypes / descriptors), Compartment (0-3 doses in stored order incl. Bolus before Infusion, lag / F / input), ExecutionSteps (<=3 estimation / simulation steps over all fields incl. tool options, '
     'solver, derivatives), Expr / Matrix (ASTs of depth <=3 over symbols, ints, floats, rationals, + * ** exp log sqrt '
     'abs sign floor, Piecewise with relational/And/Or conditions, amount functions, derivatives, PHI), Model (recipe)}. '
     'A recipe is a start model (ivoral model with two dosing compartments, basic iv/oral, pheno, checked-in test '
     'models; or a synthetic model around a C05 system / builder history) + <=3 modeling transformations (inapplicable '
-    'ones are skipped) + optional dataset edits. hash_process: batches of 10-14 recipes x 4 interpreters. '
+    'ones are skipped) + optionally CompartmentalSystemBuilder.add_dose of a second dose (Bolus / Infusion) on a dosing compartment (inapplicable '
+    'ones are skipped) + optional dataset edits. hash_process: batches of 8-12 recipes x 4 interpreters. '
     'hash_content: builder operations in permuted order, builder history vs direct construction, symbol renaming '
     'there and back (rename_symbols / CompartmentalSystem.subs), transformation followed by its inverse, mapping '
     'order of tool options / dependent variables, metadata changes; nine kinds of single edits. '
@@ -301,6 +302,54 @@ def CS_SPEC():
         st.fixed_dictionaries(dict(kind=st.just('cs'), cs=c05.HISTORY)),
         st.fixed_dictionaries(dict(kind=st.just('cs'), cs=c05.HISTORY)),
     )
+
+
+CDOSE = st.tuples(st.integers(0, 2), st.integers(0, 2), st.integers(0, 1), st.integers(0, 1)).map(list)
+COMPARTMENT_SPEC = st.fixed_dictionaries(
+    dict(
+        kind=st.just('compartment'), name=st.integers(0, 7),
+        doses=st.one_of(st.lists(CDOSE, max_size=3), st.lists(CDOSE, min_size=2, max_size=3), st.tuples(st.tuples(st.just(0), st.integers(0, 2), st.integers(0, 1), st.integers(0, 1)).map(list), st.tuples(st.integers(1, 2), st.integers(0, 2), st.integers(0, 1), st.integers(0, 1)).map(list)).map(list)),
+        lag=st.integers(0, 3), bio=st.integers(0, 3), inp=st.integers(0, 3), wrap=st.booleans(),
+    )
+)
+
+
+def build_compartment(spec):
+    """one Compartment with 0-3 doses in the given (stored) order, optionally inside a one-compartment system"""
+    from pharmpy.model import Compartment, CompartmentalSystem, CompartmentalSystemBuilder, output
+
+    from . import c05
+
+    name = c05.NAMES[_int(spec.get('name')) % len(c05.NAMES)]
+    doses = tuple(c05.p_dose(c05.mk_dose(d)) for d in _list(spec.get('doses'))[:3])
+    aux = lambda k, prefix, default: default if _int(k) % 4 == 0 else c05.px(c05.mk_aux([_int(k) % 3, _int(k), _int(k) + 1], prefix))  # noqa: E731
+    comp = guard(
+        Compartment.create, name, doses=doses, lag_time=aux(spec.get('lag'), 'ALAG', 0), bioavailability=aux(spec.get('bio'), 'FB', 1), input=aux(spec.get('inp'), 'RIN', 0),
+        clause='build:Compartment', internal_is_violation=False,
+    )
+    if not spec.get('wrap'):
+        return comp, comp
+    cb = CompartmentalSystemBuilder()
+    cb.add_compartment(comp)
+    cb.add_flow(comp, output, 'K0')
+    return CompartmentalSystem(cb), comp
+
+
+def bolus_before_infusion(x):
+    """some compartment of x (Compartment, CompartmentalSystem, Statements or Model) stores >= 2 doses with
+    a Bolus before an Infusion (the order the public `doses` property rearranges)"""
+    from pharmpy.model import Bolus, Compartment, CompartmentalSystem, Infusion, Model, Statements
+
+    if isinstance(x, Model):
+        x = x.statements
+    if isinstance(x, Statements):
+        return any(bolus_before_infusion(s) for s in x if isinstance(s, CompartmentalSystem))
+    if isinstance(x, CompartmentalSystem):
+        return any(bolus_before_infusion(c) for c in x._g.nodes if isinstance(c, Compartment))
+    if isinstance(x, Compartment):
+        ds = x._doses
+        return any(isinstance(ds[i], Bolus) and isinstance(ds[j], Infusion) for i in range(len(ds)) for j in range(i + 1, len(ds)))
+    return False
 
 
 class BuiltCS:
@@ -844,13 +893,14 @@ def RECIPE():
 
     start = st.sampled_from(range(len(STARTS)))
     data = st.one_of(st.just([]), st.just([]), st.lists(DATAEDIT, max_size=2))
-    plain = st.fixed_dictionaries(dict(start=start, steps=st.lists(STEP_SPEC, min_size=0, max_size=3), data=data))
+    dose = st.one_of(st.none(), st.none(), st.none(), st.tuples(st.sampled_from([1, 2, 1, 0]), st.integers(0, 1), st.integers(0, 1), st.integers(0, 1)).map(list))
+    plain = st.fixed_dictionaries(dict(start=start, steps=st.lists(STEP_SPEC, min_size=0, max_size=3), data=data, dose=dose))
     synth = st.fixed_dictionaries(dict(synth=st.one_of(c05.DIRECT, c05.HISTORY, c05.HISTORY), steps=st.lists(STEP_SPEC, min_size=0, max_size=2), data=st.just([])))
     # structure change followed by a renaming that relabels compartments (the history class the property names)
     par = st.integers(0, 7)
     grow = st.tuples(st.sampled_from([op_selector(n) for n in ('add_peripheral', 'transits', 'add_lag', 'add_F', 'effect_cmt', 'metabolite', 'fo_abs')]), par, par).map(list)
     ren = st.tuples(st.sampled_from([op_selector(n) for n in ('rename_amt', 'rename_amt', 'rename_var', 'rename_param', 'rename_amt_back')]), par, par).map(list)
-    relabel = st.fixed_dictionaries(dict(start=st.sampled_from([0, 0, 1, 3, 4, 6, 7]), steps=st.tuples(grow, ren, st.one_of(ren, grow)).map(list), data=st.just([])))
+    relabel = st.fixed_dictionaries(dict(start=st.sampled_from([0, 0, 1, 3, 4, 6, 7]), steps=st.tuples(grow, ren, st.one_of(ren, grow)).map(list), data=st.just([]), dose=dose))
     relabel_synth = st.fixed_dictionaries(dict(synth=st.one_of(c05.DIRECT, c05.HISTORY), steps=st.lists(ren, min_size=1, max_size=2), data=st.just([])))
     return st.sampled_from(['plain', 'plain', 'plain', 'plain', 'synth', 'synth', 'relabel', 'relabel', 'relabel_synth']).flatmap(
         lambda k: dict(plain=plain, synth=synth, relabel=relabel, relabel_synth=relabel_synth)[k]
@@ -927,6 +977,30 @@ def edit_dataset(model, edits):
     return model.replace(dataset=df)
 
 
+def add_dose_step(model, dose):
+    """CompartmentalSystemBuilder.add_dose on a dosing compartment of the model: [kind, admid, which, amount]
+    (kind 0 Bolus, 1 Infusion by rate, 2 Infusion by duration; the new dose is stored after the existing ones)"""
+    from pharmpy.model import Bolus, CompartmentalSystem, CompartmentalSystemBuilder, Infusion, Statements
+
+    kind, admid, which, amt = (_int(v) for v in _pad(dose, 4))
+    cs = model.statements.ode_system
+    if cs is None:
+        raise ValueError('no ODE system')
+    comps = list(cs.dosing_compartments)
+    comp = comps[which % len(comps)]
+    amount = comp.doses[0].amount if amt % 2 == 0 else 'AMT'
+    if kind % 3 == 0:
+        d = Bolus.create(amount, admid=2 + admid % 2)
+    elif kind % 3 == 1:
+        d = Infusion.create(amount, admid=2 + admid % 2, rate='RATE' if 'RATE' in model.datainfo.names else 'R1')
+    else:
+        d = Infusion.create(amount, admid=2 + admid % 2, duration='D1')
+    cb = CompartmentalSystemBuilder(cs)
+    cb.add_dose(comp, d)
+    new = CompartmentalSystem(cb)
+    return model.replace(statements=Statements([new if isinstance(s, CompartmentalSystem) else s for s in model.statements]))
+
+
 def build_model(recipe) -> Built:
     """total interpretation of a recipe (transformations that raise are skipped)"""
     recipe = _dict(recipe)
@@ -974,6 +1048,17 @@ def build_model(recipe) -> Built:
                 nxt.skipped.append(name)
             _cache_put(key, nxt)
         cur = nxt
+    dose = recipe.get('dose')
+    if isinstance(dose, list) and dose:
+        cur2 = cur.copy()
+        try:
+            with quiet_ctx():
+                cur2.model = add_dose_step(cur.model, dose)
+            cur2.applied.append('add_dose')
+            cur2.relabel = True
+        except Exception:  # noqa
+            cur2.skipped.append('add_dose')
+        cur = cur2
     edits = _list(recipe.get('data'))
     if edits:
         cur2 = cur.copy()
@@ -1029,14 +1114,67 @@ def _stage(v, stage, differing=None):
     return v
 
 
-EXPR_LABELS = ('Assignment', 'Compartment', 'Bolus', 'Infusion', 'CompartmentalSystem', 'Statements', 'NormalDistribution', 'JointNormalDistribution', 'RandomVariables', 'Model')
+def sympy_equal(a, b, depth=0):
+    """a and b are equal when every expression is compared through its sympy form (the form used for
+    serialisation) and everything else structurally, in order.  Used to tell the symengine-form finding
+    (only the internal form of an expression differs) from a real loss of content."""
+    import pandas as pd
+    from collections.abc import Mapping
 
+    from pharmpy.basic import Expr, Matrix
+    from pharmpy.model import CompartmentalSystem, Compartment, Model
 
-def _same_dict(b, d, label):
-    if label not in EXPR_LABELS:
-        return False
+    if depth > 12:
+        return a == b
+    if isinstance(a, (Expr, Matrix)):
+        return type(a) is type(b) and a.serialize() == b.serialize()
+    if isinstance(a, Model):
+        if not isinstance(b, Model):
+            return False
+        for k in MODEL_ATTRS:
+            if not sympy_equal(getattr(a, k), getattr(b, k), depth + 1):
+                return False
+        return sympy_equal(a.initial_individual_estimates, b.initial_individual_estimates, depth + 1)
+    if isinstance(a, CompartmentalSystem):
+        if not isinstance(b, CompartmentalSystem) or not sympy_equal(a._t, b._t, depth + 1):
+            return False
+
+        def parts(cs):
+            comps = {c.name: c for c in cs._g.nodes if isinstance(c, Compartment)}
+            nm = lambda c: c.name if isinstance(c, Compartment) else None  # noqa: E731
+            edges = {(nm(u), nm(v)): r for u, v, r in cs._g.edges.data('rate')}
+            return comps, edges
+
+        (ca, ea), (cb, eb) = parts(a), parts(b)
+        if len(ca) != len(a) or len(cb) != len(b) or set(ca) != set(cb) or set(ea) != set(eb):
+            return False
+        return all(sympy_equal(ca[k], cb[k], depth + 1) for k in ca) and all(sympy_equal(ea[k], eb[k], depth + 1) for k in ea)
+    if isinstance(a, pd.DataFrame):
+        return isinstance(b, pd.DataFrame) and a.equals(b)
+    if isinstance(a, (tuple, list)):
+        return isinstance(b, (tuple, list)) and len(a) == len(b) and all(sympy_equal(x, y, depth + 1) for x, y in zip(a, b))
+    if isinstance(a, Mapping):
+        if not isinstance(b, Mapping) or len(a) != len(b):
+            return False
+        key = lambda k: k.serialize() if isinstance(k, Expr) else repr(k)  # noqa: E731
+        da, db = {key(k): v for k, v in a.items()}, {key(k): v for k, v in b.items()}
+        return set(da) == set(db) and all(sympy_equal(da[k], db[k], depth + 1) for k in da)
+    if type(a).__module__.startswith('pharmpy.') and hasattr(a, '__dict__') and not isinstance(a, type):
+        if type(a) is not type(b):
+            return False
+        va = {k: v for k, v in vars(a).items() if k != '_hash'}
+        vb = {k: v for k, v in vars(b).items() if k != '_hash'}
+        return set(va) == set(vb) and all(sympy_equal(va[k], vb[k], depth + 1) for k in va)
     try:
-        return json.dumps(jnorm(b.to_dict()), default=repr) == json.dumps(jnorm(d), default=repr)
+        return bool(a == b)
+    except Exception:  # noqa
+        return False
+
+
+def _same_dict(b, x):
+    """b != x, but they differ only in the symengine form of expressions"""
+    try:
+        return sympy_equal(b, x)
     except Exception:  # noqa
         return False
 
@@ -1061,12 +1199,12 @@ def rt_object(x, cls, label, out, diff=None):
     if b is not None and not _eq(b, x, label):
         differing = diff(b, x) if diff else None
         where = f' differing: {differing}' if diff else ''
-        same = _same_dict(b, d, label)
+        same = _same_dict(b, x)
         out.append(
             _stage(
                 Violation(
                     f'same-dict-not-equal:{label}' if same else f'dict-not-equal:{label}', observed=_short(b), expected=_short(x),
-                    detail=('from_dict(to_dict(x)) != x although both have the same to_dict() (the expressions differ only in their symengine form);' if same else 'from_dict(to_dict(x)) != x;') + f'{where} dict={_short(d, 500)}',
+                    detail=('from_dict(to_dict(x)) != x although both have the same to_dict() (every expression is equal in its sympy form, they differ only in the symengine form);' if same else 'from_dict(to_dict(x)) != x;') + f'{where} dict={_short(d, 500)}',
                 ),
                 'dict', differing,
             )
@@ -1289,9 +1427,9 @@ def MODEL_SPEC():
 
 def COMPONENTS():
     table = dict(
-        parameters=PARAMS_SPEC, rvs=RVS_SPEC(), statements=PROG_SPEC(), cs=CS_SPEC(), datainfo=DATAINFO_SPEC, steps=STEPS_SPEC, expr=EXPR_SPEC, matrix=MATRIX_SPEC, model=MODEL_SPEC(),
+        parameters=PARAMS_SPEC, rvs=RVS_SPEC(), statements=PROG_SPEC(), cs=CS_SPEC(), datainfo=DATAINFO_SPEC, steps=STEPS_SPEC, expr=EXPR_SPEC, matrix=MATRIX_SPEC, model=MODEL_SPEC(), compartment=COMPARTMENT_SPEC,
     )
-    weights = dict(parameters=2, rvs=3, statements=3, cs=5, datainfo=3, steps=3, expr=4, matrix=1, model=2)
+    weights = dict(parameters=2, rvs=3, statements=3, cs=5, datainfo=3, steps=3, expr=4, matrix=1, model=2, compartment=2)
     kinds = [k for k, w in weights.items() for _ in range(w)]
     return st.sampled_from(kinds).flatmap(lambda k: table[k])
 
@@ -1324,6 +1462,10 @@ def run_components(spec):
             classes += [f'ncomp={min(n, 6)}', f'ndose={nd}', 'relabelled' if b.relabel else 'not-relabelled']
             x = Statements([Assignment.create('K', Expr.symbol('T1')), b.cs, Assignment.create('Y', Expr.symbol('K') * 2)])
             render = dict(system=b.ref.render(), ops=b.log)
+        elif kind == 'compartment':
+            x, comp = build_compartment(spec)
+            classes.append(f'doses={len(comp._doses)}')
+            nontrivial = len(comp._doses) >= 2 and bolus_before_infusion(comp)
         elif kind == 'datainfo':
             x = build_datainfo(spec)
             classes.append('categories' if any(c.categories is not None for c in x) else 'no-categories')
@@ -1343,6 +1485,8 @@ def run_components(spec):
             render = dict(start=b.start, applied=b.applied, skipped=b.skipped)
         else:
             raise Reject('unknown kind')
+        if bolus_before_infusion(x):
+            classes.append('bolus-before-infusion')
         rt_tree(x, out)
     raise_first(out)
     return CaseInfo(nontrivial=nontrivial, classes=tuple(classes), render=render if render is not None else _short(x, 400))
@@ -1386,6 +1530,8 @@ def run_generic_code(spec):
                 where = '?'
             raise Violation('generic-code-not-fixed-point', detail=f'code of the re-read model differs at {where}; applied={b.applied}')
     classes = [f'start={b.start}', f"ncomp={min(f['ncomp'], 6)}", f"ndose={f['ndose']}"] + [f'op:{a.split(":")[0]}' for a in b.applied]
+    if bolus_before_infusion(b.model):
+        classes.append('bolus-before-infusion')
     return CaseInfo(nontrivial=f['nontrivial'], classes=tuple(classes), render=dict(start=b.start, applied=b.applied, skipped=b.skipped), evals=2)
 
 
@@ -1400,7 +1546,7 @@ SHRINK_LAUNCHES = 10
 
 
 def PROCESS_SPEC():
-    return st.fixed_dictionaries(dict(recipes=st.lists(RECIPE(), min_size=10, max_size=14), seed=st.integers(3, 4294967295)))
+    return st.fixed_dictionaries(dict(recipes=st.lists(RECIPE(), min_size=8, max_size=12), seed=st.integers(3, 4294967295)))
 
 
 def worker_record(recipe):
@@ -2024,10 +2170,11 @@ def selfcheck():
         raise HarnessError('first_diff wrong')
 
 
+# hash_process first: its shards mostly wait for their interpreters, so they should not be the tail of the run
 SUBCHECKS = [
+    SubCheck('hash_process', PROCESS_SPEC, run_hash_process, quick=16, thorough=96, quick_time=600.0, thorough_time=3000.0),
     SubCheck('components', COMPONENTS, run_components, quick=3000, thorough=30000, quick_time=600.0, thorough_time=3000.0),
     SubCheck('generic_code', GENERIC_SPEC, run_generic_code, quick=300, thorough=3000, quick_time=600.0, thorough_time=3000.0),
-    SubCheck('hash_process', PROCESS_SPEC, run_hash_process, quick=16, thorough=96, quick_time=600.0, thorough_time=3000.0),
     SubCheck('hash_content', CONTENT_SPEC, run_hash_content, quick=1200, thorough=15000, quick_time=600.0, thorough_time=3000.0),
 ]
 
